@@ -248,7 +248,9 @@ func (r *ClientPeerRef) Send(ctx context.Context, msg []byte) (_ *signaling_rpc.
 
 			// Stream with remote was re-opened.
 			if sessionSeqno == nil || *sessionSeqno != *tkr.open {
-				txed = false
+				// the routine re-transmits tkr.out in the new session: keep
+				// ownership if the pending message is still ours.
+				txed = txed && tkr.out != nil && tkr.out.Seqno == seqno
 				sessionSeqno = tkr.open
 			}
 
